@@ -168,6 +168,9 @@ func TestLimiter(t *testing.T) {
 		idx := 0
 		emit := func(kind string, c LimCase) {
 			if Mine(idx) {
+				if pre, err := json.Marshal(c); err == nil {
+					cw.Begin(idx, kind, pre)
+				}
 				coq, stats := runLimCase(c)
 				repl, _ := json.Marshal(c)
 				cw.Put(Case{Idx: idx, Kind: kind, Coq: coq, Repl: repl, Stats: stats})
